@@ -24,12 +24,12 @@ RULE = (
     "named ID or SUBJ), 1-12 records each, TIME non-decreasing with ties (optionally restarting at reset events), "
     'records = observation / dose (AMT>0) / other event (EVID 2) / reset (EVID 3) / reset+dose (EVID 4) / missing '
     'observation (MDV 1), optional columns MDV EVID CMT ADMID RATE SS II ADDL DVID and 0-2 covariates (constant or '
-    'time varying), float or integer flag columns, ADDL 0-3 with II in {2,4,6,12,24} so that additional doses overlap '
+    'time varying, with missing values NaN in some records incl. the first record of an individual; DV of non-observation records may be missing too), float or integer flag columns, ADDL 0-3 with II in {2,4,6,12,24} so that additional doses overlap '
     'later records, attached to create_basic_pk_model(iv|oral|ivoral) with a DataInfo typed column by column. '
     'Non-trivial = some individual has a dose/non-dose tie in TIME, or ADDL>0, or EVID>=3, or doses by two routes. '
     'Distinct = hash of the spec. Records whose value the documentation leaves open (before the first dose, ties with '
     'several simultaneous doses, ties across a reset, additional doses pending at a reset, non-dose MDV=1 records '
-    'when EVID has to be created) are not compared (classes "unspecified:*") except for TAD >= 0.'
+    'when EVID has to be created, a covariate varying only between a value and missing) are not compared (classes "unspecified:*") except for TAD >= 0.'
 )
 ASSUMPTIONS = [
     'pandas DataFrame construction / Series.tolist are trusted',
@@ -700,15 +700,28 @@ def run_baselines(spec):
         for pos, i in enumerate(got_ids):
             for c in cols:
                 if not same(df[c].iloc[pos], expd[i][c]):
-                    raise Violation(f'{clause}:value', observed=df[c].iloc[pos], expected=expd[i][c], detail=f'individual {i} column {c}; {tab.render()}')
+                    # "Baseline is taken to be the first row even if that has a missing value."
+                    kind = 'value:first-record-missing' if expd[i][c] != expd[i][c] else 'value'
+                    raise Violation(f'{clause}:{kind}', observed=df[c].iloc[pos], expected=expd[i][c], detail=f'individual {i} column {c}; {tab.render()}')
 
+    # missing values (NaN): anywhere / in the first record of an individual while a later record has a value
+    n_missing = sum(1 for r in recs for c in tab.columns if r[c] != r[c])
+    if n_missing:
+        classes.append('missing_values')
+    for _id, rows in W.individuals(recs, meta):
+        for c in tab.columns:
+            v0 = recs[rows[0]][c]
+            if v0 != v0 and any(recs[i][c] == recs[i][c] for i in rows[1:]):
+                classes.append('first_record_missing_later_value:' + tab.types[c])
     df = call(get_baselines, tab, clause='get_baselines')
     cols = [c for c in tab.columns if c != meta['id']]
     check_frame(df, W.baselines(recs, meta), cols, 'get_baselines')
 
     covs = meta['covariates']
     classes.append(f'ncov={len(covs)}')
-    exp = W.time_varying_covariates(recs, meta)
+    exp, undecided = W.time_varying_covariates(recs, meta)
+    if undecided:
+        classes.append('unspecified:time-varying-through-missing-value')
     # alternate which of the two covariate functions is asked first so that a failure of one
     # (e.g. on tables without covariate columns) does not hide the other in every case
     order = ('tv', 'cb') if len(recs) % 2 else ('cb', 'tv')
@@ -718,8 +731,10 @@ def run_baselines(spec):
             check_frame(df, W.baselines(recs, meta, covs), covs, 'get_covariate_baselines')
         else:
             got = call(list_time_varying_covariates, tab, clause='list_time_varying_covariates' + ('' if covs else '[no-covariates]'))
-            if not isinstance(got, list) or got != exp:
-                raise Violation('list_time_varying_covariates', observed=got, expected=exp, detail=str(tab.render()))
+            # covariates whose only variation is value <-> missing may or may not be listed (undocumented)
+            ok = isinstance(got, list) and [c for c in got if c not in undecided] == exp and got == [c for c in covs if c in got]
+            if not ok:
+                raise Violation('list_time_varying_covariates', observed=got, expected=dict(certain=exp, undecided=undecided), detail=str(tab.render()))
     classes.append(f'time_varying={len(exp)}')
     return info(tab, feats, classes, 3)
 
@@ -766,7 +781,7 @@ def selfcheck():
         t, _ = W.tad(recs, meta)
         if t[0] != 0.0 or not close(t[1], 2.0) or not close(t[743], 2.0):
             raise HarnessError('walker: pheno tad')
-        if W.time_varying_covariates(recs, meta) != [] or sum(W.mdv(recs, meta)) != 589:
+        if W.time_varying_covariates(recs, meta) != ([], []) or sum(W.mdv(recs, meta)) != 589:
             raise HarnessError('walker: pheno covariates / mdv')
         if [c for _, c in W.observation_counts(recs, meta)][:10] != [2, 3, 3, 3, 3, 3, 3, 3, 4, 3]:
             raise HarnessError('walker: pheno observation counts')
